@@ -1,4 +1,4 @@
-//! goldengen <out.json> <commit-id>
+//! goldengen <out.json> <commit-id> [extra]
 //! Produces the golden corpus (C18) with whatever library tree this harness is built against.
 //! Run ONCE against the pinned commit from a scratch worktree; the output is committed.
 
@@ -9,8 +9,16 @@ fn main() {
     let mut args = std::env::args().skip(1);
     let out = args.next().expect("output path");
     let commit = args.next().unwrap_or_else(|| "unknown".into());
-    let mut artefacts = golden::generate::<blsful::Bls12381G1Impl>("pinned");
-    artefacts.extend(golden::generate::<blsful::Bls12381G2Impl>("pinned"));
+    let extra = args.next().as_deref() == Some("extra");
+    let artefacts = if extra {
+        let mut a = golden::generate_extra::<blsful::Bls12381G1Impl>("pinned-b");
+        a.extend(golden::generate_extra::<blsful::Bls12381G2Impl>("pinned-b"));
+        a
+    } else {
+        let mut a = golden::generate::<blsful::Bls12381G1Impl>("pinned");
+        a.extend(golden::generate::<blsful::Bls12381G2Impl>("pinned"));
+        a
+    };
     let corpus = golden::Corpus {
         header: json!({
             "generated_from_commit": commit,
